@@ -1,5 +1,23 @@
 #include "vh.h"
 
+/* With -DVH_WRAP (and -Wl,--wrap=malloc,--wrap=calloc,--wrap=realloc,--wrap=free) every direct reference to the C
+ * allocator from libcbor's objects or the harness goes through __wrap_*: a call that arrives while a library call is
+ * in progress (vh_in_lib) and does not come from the installed allocator is a bypass of cbor_set_allocs. */
+int vh_in_lib;
+long vh_bypass;
+static int va_inside;
+#ifdef VH_WRAP
+void* __real_malloc(size_t);
+void* __real_calloc(size_t, size_t);
+void* __real_realloc(void*, size_t);
+void __real_free(void*);
+static void note_bypass(void) { if (vh_in_lib && !va_inside) vh_bypass++; }
+void* __wrap_malloc(size_t n) { note_bypass(); return __real_malloc(n); }
+void* __wrap_calloc(size_t a, size_t b) { note_bypass(); return __real_calloc(a, b); }
+void* __wrap_realloc(void* p, size_t n) { note_bypass(); return __real_realloc(p, n); }
+void __wrap_free(void* p) { note_bypass(); __real_free(p); }
+#endif
+
 FILE* vh_out;
 
 static void __attribute__((constructor)) vh_init(void) {
@@ -39,6 +57,32 @@ uint64_t vh_rand(void) { /* splitmix64 */
   z = (z ^ (z >> 27)) * 0x94D049BB133111EBull;
   return z ^ (z >> 31);
 }
+
+/* ------------------------------------------------------------------ arena backing (no libc behind it) */
+#include <sys/mman.h>
+static unsigned char* arena_base;
+static size_t arena_size, arena_used;
+void va_use_arena(size_t bytes) {
+  arena_base = mmap(NULL, bytes, PROT_READ | PROT_WRITE, MAP_PRIVATE | MAP_ANONYMOUS, -1, 0);
+  if (arena_base == MAP_FAILED) abort();
+  arena_size = bytes;
+  arena_used = 0;
+}
+static void* arena_alloc(size_t n) {
+  size_t need = (n + 15) & ~(size_t)15;
+  if (need == 0) need = 16;
+  if (arena_used + need > arena_size) return NULL;
+  void* p = arena_base + arena_used;
+  arena_used += need;
+  return p;
+}
+void va_arena_protect(int readonly) {
+  if (arena_base && mprotect(arena_base, arena_size, readonly ? PROT_READ : PROT_READ | PROT_WRITE)) abort();
+}
+bool va_in_arena(const void* p) { return arena_base && (const unsigned char*)p >= arena_base && (const unsigned char*)p < arena_base + arena_size; }
+void va_arena_reset(void) { if (va.live == 0) arena_used = 0; }
+static void* back_alloc(size_t n) { return arena_base ? arena_alloc(n) : malloc(n ? n : 1); }
+static void back_free(void* p) { if (!arena_base) free(p); }
 
 /* ------------------------------------------------------------------ allocator */
 struct va_stats va;
@@ -119,6 +163,9 @@ void va_events_json(const char* key) {
   fputc(']', vh_out);
 }
 
+static void* va_malloc_(size_t size);
+static void* va_realloc_(void* old, size_t size);
+static void va_free_(void* p);
 static bool va_refuse(size_t size) {
   long k = va.requests++;
   va_last_req_size = size;
@@ -129,11 +176,17 @@ static bool va_refuse(size_t size) {
 }
 
 void* va_malloc(size_t size) {
+  va_inside++;
+  void* r_ = va_malloc_(size);
+  va_inside--;
+  return r_;
+}
+static void* va_malloc_(size_t size) {
   if (va_refuse(size)) {
     va_event('X', 0, 0, size);
     return NULL;
   }
-  void* p = malloc(size ? size : 1);
+  void* p = back_alloc(size);
   if (!p) abort();
   long id = ++va_serial;
   va_put(p, size, id);
@@ -145,6 +198,12 @@ void* va_malloc(size_t size) {
 }
 
 void* va_realloc(void* old, size_t size) {
+  va_inside++;
+  void* r_ = va_realloc_(old, size);
+  va_inside--;
+  return r_;
+}
+static void* va_realloc_(void* old, size_t size) {
   struct va_ent* e = NULL;
   long oldid = 0;
   if (old) {
@@ -161,14 +220,14 @@ void* va_realloc(void* old, size_t size) {
     va_event('X', 1, oldid, size);
     return NULL;
   }
-  void* p = malloc(size ? size : 1);
+  void* p = back_alloc(size);
   if (!p) abort();
   long id = ++va_serial;
   if (e) {
     memcpy(p, old, e->size < size ? e->size : size);
     va.live_bytes -= e->size;
     va_del(e);
-    free(old); /* always move: a stale pointer is poisoned under ASan */
+    back_free(old); /* always move: a stale pointer is poisoned under ASan */
     va.live--;
   }
   va_put(p, size, id);
@@ -180,6 +239,11 @@ void* va_realloc(void* old, size_t size) {
 }
 
 void va_free(void* p) {
+  va_inside++;
+  va_free_(p);
+  va_inside--;
+}
+static void va_free_(void* p) {
   if (!p) {
     va.free_null++;
     return;
@@ -195,7 +259,7 @@ void va_free(void* p) {
   va.live--;
   va.frees++;
   va_del(e);
-  free(p);
+  back_free(p);
 }
 
 bool va_is_live(const void* p) { return va_find(p) != NULL; }
